@@ -30,10 +30,8 @@ ASSUMPTIONS = [
     "not judged (statement/documentation silent): options within 1e-9 of the value, '!=' inside the tolerance, strict "
     "comparisons exactly on a threshold that was unit-converted, intermediate values violating a !condition or a "
     "dimension bound, property lines after a modification, unanchored formats, conditions/options on arrays, "
-    "values 0 / '' / none (C14), values with MORE axes than declared, a missing dimension that is declared without "
-    "any bound ([:]), the accept direction for int-node options that are not integral in the node's unit, "
-    "different values closer than 5e-8 in absolute terms (the library's implicit absolute tolerance 1e-8 calls e.g. "
-    "1 ns and 5 ns equal for a node in s: observed, documentation does not say whether EQUAL_PRECISION is relative)",
+    "values 0 / none (C14), values with MORE axes than declared, a missing dimension that is declared without "
+    "any bound ([:]), the accept direction for int-node options that are not integral in the node's unit",
 ]
 
 
@@ -798,7 +796,9 @@ MANIFEST = dict(
     text="Bounded exhaustive enumeration of single-node DIP programs: every type (int, float, str, bool; scalar and "
          "rank 1-2 arrays) x every constraint kind and pair of kinds (options per-line / list / two lists / in other "
          "units, !condition with all six comparison operators in both orientations plus interval, disjunction and "
-         "negation forms, equality (options, ==, !=) on values of magnitude 1e-7 (unit-less and ns/us/s) and 1e7, "
+         "negation forms, unparenthesised mixes of || and && (3-4 operands, every truth assignment, int/float/str/"
+         "bool), equality (options, ==, !=, <=, >=) on values of magnitude 1e-12, 1e-9, 1e-7 (unit-less and ns/us/s) "
+         "and 1e7, the empty string as final value against formats that require / allow it, "
          "int nodes against thresholds/options that are not integral in the node's unit (250 cm, "
          "2500 mm, 0.0025 km vs m), three anchored !format expressions, all dimension-bound forms incl. values that "
          "lack a bounded declared dimension (scalar / flat list, also via modification and sliced injection), "
